@@ -359,7 +359,7 @@ func (r *ringRun) apply(op Op) string {
 
 func runRing(c RingCase, o *vk.Obs) string {
 	r := &ringRun{c: c, step: -1, ids: map[*ring.Ring[int]]int{}}
-	ctx := func() string { return r.errf("") }
+	ctx := r.errf
 	for i, op := range c.Ops {
 		r.step = i
 		if msg := guarded(ctx, func() string {
